@@ -34,6 +34,7 @@ class Ctx:
         self.pos = 0
         self.trace = []
         self.nfeas = 0
+        self.undecided = []
 
     def fresh(self, p):
         self.n += 1
@@ -189,8 +190,14 @@ class SB:
             else:
                 ft = feasible(self.c)
                 ff = feasible(z3.Not(self.c))
-            if ft in ("unknown", "timeout") or ff in ("unknown", "timeout"):
+            und = ("unknown", "timeout")
+            if ft in und and ff in und:
                 raise PathBound(f"branch feasibility undecided ({ft}/{ff}) at decision {len(CTX.decisions)}: {str(c)[:200]}")
+            if ft in und or ff in und:
+                # one side is feasible, the other could not be decided: go on along the feasible side (whatever is found there is real) and
+                # record the other side as unexplored, which keeps the run from ever being reported as a full pass
+                CTX.undecided.append(f"decision {len(CTX.decisions)}: side '{'true' if ft in und else 'false'}' of {str(c)[:160]} undecided ({ft}/{ff}), not explored")
+                ft, ff = ("unsat", "sat") if ft in und else ("sat", "unsat")
             if ft == "unsat" and ff == "unsat":
                 raise Abort("infeasible path")
             if ft != "unsat":
@@ -328,6 +335,18 @@ class SR:
     def __float__(s):
         raise TypeError("a symbolic real cannot be turned into a float (the code under analysis forces a concrete value here)")
 
+    def arccos(s):
+        """angle in [0, pi] with the given cosine: sine = +sqrt(1 - c^2)"""
+        return Angle(s, (1 - s * s).sqrt())
+
+    def sign(s):
+        """numpy.sign for object arrays falls back to comparisons; this is the explicit three-way fork"""
+        if bool(s > 0):
+            return 1
+        if bool(s < 0):
+            return -1
+        return 0
+
     def arctan2(y, x):
         x = x if isinstance(x, SR) else SR(lift(x))
         r = (x * x + y * y).sqrt()
@@ -383,6 +402,20 @@ class Angle:
 
     def __neg__(a):
         return Angle(a.c, -a.s)
+
+    def __mul__(a, k):
+        """only the multiples an angle meets in molli: +1, -1, 0 (e.g. sign(x) * arccos(y))"""
+        if isinstance(k, SR):
+            raise TypeError("angle times a symbolic factor")
+        k = float(k)
+        if k == 1.0:
+            return a
+        if k == -1.0:
+            return -a
+        if k == 0.0:
+            return Angle(1.0, 0.0)
+        raise TypeError(f"angle times {k}")
+    __rmul__ = __mul__
 
 
 def as_angle(x):
@@ -468,7 +501,7 @@ def explore(fn, max_paths=16, initial=None):
         for idx, alt in CTX.trace:
             if alt:
                 stack.append(CTX.decisions[:idx] + [not CTX.decisions[idx]])
-        results.append({"decisions": list(CTX.decisions), "cons": list(CTX.cons), "oblig": list(CTX.oblig), "goals": goals, "nfeas": CTX.nfeas})
+        results.append({"decisions": list(CTX.decisions), "cons": list(CTX.cons), "oblig": list(CTX.oblig), "goals": goals, "nfeas": CTX.nfeas, "undecided": list(CTX.undecided)})
     return results
 
 
@@ -478,6 +511,8 @@ def discharge(rep: Report, label: str, paths, timeout=120, replay=None, expect_s
     Also: the path condition alone must be sat (vacuity), and every recorded denominator must be non-zero on the path (if requested)."""
     tasks = []
     for pi, p in enumerate(paths):
+        for u in p.get("undecided", []):
+            rep.add(Obligation(name=f"{label}/path{pi}{p['decisions']}/unexplored branch", engine="SR", status="inconclusive", detail=u))
         tasks.append((pi, "path-feasible", None, "vacuity"))
         if denominators:
             for k, (ob, upto) in enumerate(p["oblig"]):
